@@ -484,6 +484,50 @@ def sweep(rep, r, nscenes):
                     rep.count(f'mixed-rejected:{name}')
 
 
+def mixed_argument_probe(rep, r):
+    """every image-like argument takes part in the unit check: a Quantity image together with a unit-less companion (error, background,
+    convolved data ...) - or the other way round - is rejected, argument by argument (seed C15-r10 exempted convolved_data)"""
+    import astropy.units as u
+    from photutils.aperture import ApertureStats, CircularAperture, aperture_photometry
+    from photutils.profiles import RadialProfile
+    from photutils.segmentation import SourceCatalog, detect_sources, detect_threshold
+    from photutils.utils import calc_total_error
+    sc = make_scene(r, False)
+    d, e = sc['data'], sc['error']
+    seg = detect_sources(d, 14.0, 5)
+    ap = CircularAperture(sc['pos'], 3.0)
+    entries = [('SourceCatalog', 'error', lambda D, A: SourceCatalog(D, seg, error=A).segment_fluxerr),
+               ('SourceCatalog', 'background', lambda D, A: SourceCatalog(D, seg, background=A).background_sum),
+               ('SourceCatalog', 'convolved_data', lambda D, A: SourceCatalog(D, seg, convolved_data=A).xcentroid),
+               ('detect_threshold', 'background', lambda D, A: detect_threshold(D, 2.0, background=A)),
+               ('detect_threshold', 'error', lambda D, A: detect_threshold(D, 2.0, error=A)),
+               ('aperture_photometry', 'error', lambda D, A: aperture_photometry(D, ap, error=A)),
+               ('ApertureStats', 'error', lambda D, A: ApertureStats(D, ap, error=A).sum_err),
+               ('RadialProfile', 'error', lambda D, A: RadialProfile(D, sc['pos'][0], np.arange(0, 6), error=A).profile_error),
+               ('calc_total_error', 'bkg_error', lambda D, A: calc_total_error(D, A, 2.0 * (u.electron / u.Jy) if hasattr(D, 'unit') and hasattr(A, 'unit') else 2.0))]
+    for name, arg, fn in entries:
+        if seg is None and name == 'SourceCatalog':
+            continue
+        for which, D, A in (('quantity-image+plain-' + arg, d * u.Jy, e), ('plain-image+quantity-' + arg, d, e * u.Jy)):
+            rep.case(('mixed-arg', name, arg, which), True, kind=f'mixed-argument:{name}:{arg}')
+            rep.probe_only += 1
+            try:
+                with warnings.catch_warnings():
+                    warnings.simplefilter('ignore')
+                    fn(D, A)
+            except Exception:                                   # noqa: BLE001
+                rep.count(f'mixed-rejected:{name}:{arg}')
+                continue
+            rep.violation(f'mixed-units-accepted:{name}:{arg}', f'{name} accepts {which.replace("+", " together with a ").replace("-", " ")} (no error raised)',
+                          {'api': name, 'argument': arg, 'case': which})
+        try:                                                    # the consistent call works
+            with warnings.catch_warnings():
+                warnings.simplefilter('ignore')
+                fn(d * u.Jy, e * u.Jy)
+        except Exception as ex:                                 # noqa: BLE001
+            rep.violation(f'representation-raises:{name}:quantity-{arg}:{type(ex).__name__}', f'{name} with Quantity image and Quantity {arg} raises {ex!r}', {'api': name, 'argument': arg})
+
+
 def extreme_scale_float32(rep, r, n):
     """float32 images in calibrated flux units (scales 2^-75 ~ 3e-23, 2^-72, 2^62): the error propagation must not square float32 values in
     float32 (squares under/overflow); float32 inputs agree with float64 inputs to float32 precision at every scale"""
@@ -695,6 +739,7 @@ def run(rep, tier):
     sweep(rep, r, 4 * scale)
     extreme_scale_float32(rep, r, 3 * scale)
     psf_init_units(rep, r, 3 * scale)
+    mixed_argument_probe(rep, r)
 
 
 def replay(rep, data):
